@@ -13,7 +13,7 @@ P = {
  "C02": dict(
   technique="model-based property testing: recording stateful callback vs explicit call-sequence model, exhaustive small scope (len<=12, all windows) plus random larger cases over all backends",
   text="Every driver entry point is run with a recording, stateful callback on every backend and output path; the recorded call sequence, arguments, slices and output placement are compared with an explicit model. Exhaustive for len 0..=12 x w 1..=len+3; random beyond.",
-  note="Polars cells limited to documented-supported paths (DESIGN 5.7); the removed argument at the single unspecified position is not compared. Sub out_view_placement (enumerated) writes through strided / reversed ndarray out views inside a padded sentinel buffer and checks placement and that nothing else is written; sub deque_out_buffer_and_longer_second_series writes into physically wrapped VecDeque out buffers and passes a second series longer than the first; the small scope also contains the two expanding windows usize::MAX and 2^63. The subs that touch real containers run first in a child process (engine canary): a child killed by a signal is a reported violation. The longer second series is also passed to an ndarray first series (owned / strided view) on the returned path.",
+  note="Polars cells limited to documented-supported paths (DESIGN 5.7); the removed argument at the single unspecified position is not compared. Sub out_view_placement (enumerated) writes through strided / reversed ndarray out views inside a padded sentinel buffer and checks placement and that nothing else is written (eight drivers: the index-writing ones and the two that fill the buffer through the iterator writer, rolling2_custom and rolling_custom on a VecDeque input); sub deque_out_buffer_and_longer_second_series writes into physically wrapped VecDeque out buffers and passes a second series longer than the first; the small scope also contains the two expanding windows usize::MAX and 2^63. The subs that touch real containers run first in a child process (engine canary): a child killed by a signal is a reported violation. The longer second series is also passed to an ndarray first series (owned / strided view) on the returned path.",
   ref="6 C02"),
  "C03": dict(
   technique="property-based testing (proptest) with tie-heavy / monotone-run generators vs exact per-window reference, plus coverage-guided fuzzing (libFuzzer) of the extrema state machine in the thorough tier",
@@ -53,7 +53,7 @@ P = {
  "C10": dict(
   technique="property-based testing with instrumented containers (access-log / write-log monitors) implementing the public backend traits; libFuzzer+ASan on the real containers in the thorough tier",
   text="All rolling, rank, partition and quantile kernels run against an instrumented input view (logs every unchecked access) and an instrumented output buffer (logs every write); outcome must be a completed call with a clean log and every slot written exactly once, or a clean panic before any bad access.",
-  note="Instrumented containers re-use the library's own default driver bodies; sub real_containers runs the kernels on the real Vec / wrapped VecDeque / strided ndarray view against the model, sub real_out_buffers (canary: first in a child process) writes into wrapped VecDeque and strided / reversed ndarray out buffers of the real containers, and the thorough tier repeats the kernels under ASan with libFuzzer (fz_kernel). two_series_kernels also drives the iterator (returned) path of the default two-series drivers (option view and VecDeque first series, shorter / longer second series) into the instrumented container, which compares the announced length with the yield.",
+  note="Instrumented containers re-use the library's own default driver bodies; sub real_containers runs the kernels on the real Vec / wrapped VecDeque / strided ndarray view against the model, sub real_out_buffers (canary: first in a child process) writes into wrapped VecDeque and strided / reversed ndarray out buffers of the real containers, and the thorough tier repeats the kernels under ASan with libFuzzer (fz_kernel). two_series_kernels also drives the iterator (returned) path of the default two-series drivers (option view and VecDeque first series, shorter / longer second series) into the instrumented container, which compares the announced length with the yield, and runs rolling2_custom a second time with a caller buffer of the wrong length (len-2..len+5; class wrong_length_caller_buffer): clean panic or fully written buffer.",
   ref="6 C10"),
  "C11": dict(
   technique="property-based testing (proptest): textbook reference definitions on the non-null elements, null law, permutation invariance (metamorphic)",
